@@ -667,12 +667,15 @@ def plan_C18(tier, seed):
     T = ("Trace_Ellipsoid", "Trace.cfg")
     ne, nlat, nd, per, npar = (4, 300, 6, 700, 4) if tier == "quick" else (16, 6000, 16, 12000, 16)
     sh = [Shard("ell_%02d" % i, drv_earth.gen_ell, dict(seed=seed, shard=i, nlat=nlat, nuser=2), *T) for i in range(ne)]
+    sh += [Shard("ellhist_%02d" % i, drv_earth.gen_ellhist, dict(seed=seed, shard=i, n=nlat * 2, nuser=3), *T) for i in range(ne // 2)]
     sh += [Shard("dist_%02d" % i, drv_earth.gen_dist, dict(seed=seed, shard=i, n=per, nuser=3), *T) for i in range(nd)]
     sh += [Shard("par_%02d" % i, drv_earth.gen_par, dict(seed=seed, shard=i, n=per), *T) for i in range(npar)]
     return dict(
         mc=[], shards=sh, level="model_checking", exhaustive=False, nontrivial=_nt_c18,
         rule="Per ellipsoid (IAU76, WGS84 and seeded user ellipsoids with f in [0, 0.01], half of them reached through Earth.set()): "
-             "latitudes -90..90 incl. poles, equator, +-1e-9 and a seeded grid, heights -500..9000 m, in increasing latitude: TLC "
+             "latitudes -90..90 incl. poles, equator, +-1e-9 and a seeded grid, heights -500..9000 m, in increasing latitude, and "
+             "histories on ONE long-lived Earth object (set() of built-in and user ellipsoids interleaved with the seven queries in "
+             "seeded order; the event carries the ellipsoid set last): TLC "
              "checks the meridian-ellipse identity, the height term, rp = a rho cos phi', the curvature end values b^2/a and a^2/b "
              "and its monotonicity towards the poles (action property), linear speed. Distance: random, equatorial, same-meridian "
              "(vs Simpson integral of the library's rm), coincident, very close and nearly antipodal pairs: symmetry, zero, "
@@ -838,6 +841,7 @@ def plan_GROWTH(tier, seed):
           Shard("moonk", drv_growth.gen_moonk, dict(seed=seed, n=300 * k), *T),
           Shard("jsat", drv_growth.gen_jsat, dict(seed=seed, n=400 * k), *T),
           Shard("jphen", drv_growth.gen_jphen, dict(seed=seed, n=150 * k), *T),
+          Shard("jsys", drv_growth.gen_jsys, dict(seed=seed, n=200 * k), *T),
           Shard("misc", drv_growth.gen_misc, dict(seed=seed, n=300 * k), *T),
           Shard("physical", drv_growth.gen_physical, dict(seed=seed, n=400 * k), *T),
           Shard("statics", drv_growth.gen_statics, dict(seed=seed, n=1500 * k), *T),
